@@ -120,3 +120,79 @@ Definition read_frame (bs : list N) : rd :=
       then Record t (firstn len rest) (skipn len rest) else Incomplete
   | _ => Incomplete
   end.
+
+(* ---- order of the log files of one partition at restart (WAL.restoreLog) ---- *)
+(* file names are "<decimal sequence number>.wal"; restoreLog orders them: shorter name = older, equal length: string order *)
+Fixpoint digits_fuel (fuel n : nat) (acc : list nat) : list nat :=
+  match fuel with
+  | 0 => acc
+  | S f => if Nat.ltb n 10 then n :: acc else digits_fuel f (Nat.div n 10) (Nat.modulo n 10 :: acc)
+  end.
+Definition digits (n : nat) : list nat := digits_fuel (S n) n [].
+Fixpoint lex_ltb (a b : list nat) : bool :=
+  match a, b with
+  | [], [] => false
+  | [], _ :: _ => true
+  | _ :: _, [] => false
+  | x :: a', y :: b' => Nat.ltb x y || (Nat.eqb x y && lex_ltb a' b')
+  end.
+Definition name_ltb (a b : nat) : bool :=
+  let da := digits a in let db := digits b in
+  Nat.ltb (length da) (length db) || (Nat.eqb (length da) (length db) && lex_ltb da db).
+(* a plain string comparison of the names (what a simplified comparator would do) *)
+Definition name_ltb_lex (a b : nat) : bool := lex_ltb (digits a) (digits b).
+
+Section FileOrder.
+Context {B : Type}.
+Definition wfile := (nat * list B)%type.        (* sequence number, records in append order *)
+Fixpoint insert_file (cmp : nat -> nat -> bool) (x : wfile) (l : list wfile) : list wfile :=
+  match l with
+  | [] => [x]
+  | y :: r => if cmp (fst x) (fst y) then x :: l else y :: insert_file cmp x r
+  end.
+Definition sort_files (cmp : nat -> nat -> bool) (l : list wfile) : list wfile := fold_right (insert_file cmp) [] l.
+(* the records of a partition in the order replay reads them, from any directory listing *)
+Definition restore_records (cmp : nat -> nat -> bool) (listing : list wfile) : list B :=
+  concat (map snd (sort_files cmp listing)).
+End FileOrder.
+
+(* ---- series index durability across a memtable flush ---- *)
+(* series created by writes sit in the in-memory index until an index flush; a memtable flush is
+   log switch -> index flush -> data-file commit -> log removal (tsstoreImpl.writeSnapshot); the index also has its own
+   background flusher. A flush order is a list of the four actions; writes and background flushes interleave freely. *)
+Inductive faction := ASwitch | AIndex | ACommit | ARemove.
+Record istate := mki {
+  i_mem : list N; i_snap : list N; i_files : list N;      (* series of the rows in memtable / snapshot table / data files *)
+  i_walcur : list N; i_walold : list N;                    (* series of the live log records: current epoch / switched epoch *)
+  i_idxmem : list N; i_idxdur : list N;                    (* series known to the index: in memory / durable *)
+  i_pc : nat                                               (* position inside the running flush, 0 = idle *)
+}.
+Inductive iop := IWrite (s : N) | IStep | IBgIndexFlush.
+Definition do_action (a : faction) (st : istate) : istate :=
+  match a with
+  | ASwitch => mki [] (i_mem st) (i_files st) [] (i_walcur st ++ i_walold st) (i_idxmem st) (i_idxdur st) (i_pc st)
+  | AIndex => mki (i_mem st) (i_snap st) (i_files st) (i_walcur st) (i_walold st) (i_idxmem st) (i_idxmem st) (i_pc st)
+  | ACommit => mki (i_mem st) [] (i_snap st ++ i_files st) (i_walcur st) (i_walold st) (i_idxmem st) (i_idxdur st) (i_pc st)
+  | ARemove => mki (i_mem st) (i_snap st) (i_files st) (i_walcur st) [] (i_idxmem st) (i_idxdur st) (i_pc st)
+  end.
+Definition istep (order : list faction) (st : istate) (o : iop) : istate :=
+  match o with
+  | IWrite s => mki (s :: i_mem st) (i_snap st) (i_files st) (s :: i_walcur st) (i_walold st) (s :: i_idxmem st) (i_idxdur st) (i_pc st)
+  | IBgIndexFlush => mki (i_mem st) (i_snap st) (i_files st) (i_walcur st) (i_walold st) (i_idxmem st) (i_idxmem st) (i_pc st)
+  | IStep =>
+      match nth_error order (i_pc st) with
+      | Some a => let st' := do_action a st in
+                  mki (i_mem st') (i_snap st') (i_files st') (i_walcur st') (i_walold st') (i_idxmem st') (i_idxdur st')
+                      (if Nat.eqb (S (i_pc st)) (length order) then 0 else S (i_pc st))
+      | None => st
+      end
+  end.
+Definition iinit : istate := mki [] [] [] [] [] [] [] 0.
+Definition irun (order : list faction) (ops : list iop) : istate := fold_left (istep order) ops iinit.
+Definition good_order : list faction := [ASwitch; AIndex; ACommit; ARemove].
+Definition index_last_order : list faction := [ASwitch; ACommit; ARemove; AIndex].
+Definition memN (s : N) (l : list N) : bool := existsb (N.eqb s) l.
+(* every series that has rows in data files can be found after a crash: through the durable index, or it is re-created
+   by replaying a live log record *)
+Definition recoverable (st : istate) : bool :=
+  forallb (fun s => memN s (i_idxdur st) || memN s (i_walold st) || memN s (i_walcur st)) (i_files st).
